@@ -4,11 +4,14 @@ import (
 	"os"
 	"strings"
 
+	"verifharness/internal/sconn"
+
 	"github.com/simonvetter/modbus"
 )
 
 func init() {
-	register("C06", scnCrcStrings)
+	register("C06", scnCrcStrings, scnRtuFlips)
+	executors["rtuflip"] = execRtuFlip
 
 	executors["crc"] = func(in []string) string {
 		v, st := modbus.VerifCRC(unhex(in[0]))
@@ -96,4 +99,95 @@ func scnCrcStrings(o *Out, r *Rng, thorough bool) {
 		}
 		o.Run("crceq", hx(b)+" "+hxu(uint64(lo))+" "+hxu(uint64(hi)))
 	}
+}
+
+// rtuflip: unit e w corrupted valid2 op... : two exchanges on one RTU client:
+// the first reply is the corrupted frame, the second a valid one.
+// -> "<result1> left=<unread bytes after call 1> <result2>"
+func execRtuFlip(in []string) string {
+	c := sconn.New(true)
+	mc := newClientOn("r", c, uint8(unhx(in[0])), atoi(in[1]), atoi(in[2]))
+	c.Feed(unhex(in[3]))
+	r1 := callOp(mc, in[5:])
+	left := c.Pending()
+	c.Feed(unhex(in[4]))
+	r2 := callOp(mc, in[5:])
+	return r1 + " left=" + itoa(left) + " " + r2
+}
+
+func flipBit(b []byte, i int) []byte {
+	c := append([]byte(nil), b...)
+	c[i/8] ^= 1 << uint(i%8)
+	return c
+}
+
+// valid RTU replies under single-bit, double-bit, burst (<= 16 bits) and
+// CRC-field corruption, each followed by a clean exchange
+func scnRtuFlips(o *Out, r *Rng, thorough bool) {
+	n := 40
+	if thorough {
+		n = 1500
+	}
+	var ins []string
+	emit := func(unit, e, w int, corrupted, valid2 []byte, op []string, label string) {
+		ins = append(ins, strings.Join(append([]string{hxi(unit), itoa(e), itoa(w), hx(corrupted), hx(valid2)}, op...), " "))
+		o.Stat("flip:" + label)
+	}
+	for i := 0; i < n; i++ {
+		unit, e, w := randCfg(r)
+		op := randOp(r, opValid)
+		fc, payload, ok := buildReply(r, op, e)
+		if !ok {
+			continue
+		}
+		v := rtuFrame(byte(unit), fc, payload)
+		fc2, payload2, _ := buildReply(r, op, e)
+		v2 := rtuFrame(byte(unit), fc2, payload2)
+		bitsN := len(v) * 8
+		// single bits: all for short frames, sampled otherwise
+		step := 1
+		if len(v) > 16 && !thorough {
+			step = 1 + bitsN/64
+		}
+		for b := r.Intn(step); b < bitsN; b += step {
+			emit(unit, e, w, flipBit(v, b), v2, op, "single")
+		}
+		for k := 0; k < 24; k++ {
+			a, b := r.Intn(bitsN), r.Intn(bitsN)
+			if a != b {
+				emit(unit, e, w, flipBit(flipBit(v, a), b), v2, op, "double")
+			}
+		}
+		for k := 0; k < 16; k++ {
+			// burst: first and last flipped bit at most 15 apart, random pattern in between
+			start := r.Intn(bitsN)
+			c := flipBit(v, start)
+			span := r.Intn(16)
+			for j := 1; j <= span && start+j < bitsN; j++ {
+				if j == span || r.Bool() {
+					c = flipBit(c, start+j)
+				}
+			}
+			emit(unit, e, w, c, v2, op, "burst")
+		}
+		for k := 0; k < 4; k++ {
+			c := append([]byte(nil), v...)
+			c[len(c)-1], c[len(c)-2] = byte(r.U64()), byte(r.U64())
+			emit(unit, e, w, c, v2, op, "crcfield")
+		}
+	}
+	// the F8 family: a prefix of the corrupted reply is itself a CRC-valid frame
+	for _, unit := range []int{1, 17} {
+		op := []string{"ReadRegisters", "0", "2", "0"}
+		// bit 7 of the function code: exception frame [unit 0x83 0x04 crc]
+		lo, hi := crcRef([]byte{byte(unit), 0x83, 4})
+		v := rtuFrame(byte(unit), 3, []byte{4, lo, hi, 0x12, 0x34})
+		v2 := rtuFrame(byte(unit), 3, []byte{4, 0, 1, 0, 2})
+		emit(unit, 1, 1, flipBit(v, 8+7), v2, op, "f8-fc")
+		// the byte count 0x04 -> 0x00: frame [unit 03 00 crc]
+		lo, hi = crcRef([]byte{byte(unit), 3, 0})
+		v = rtuFrame(byte(unit), 3, []byte{4, lo, hi, 0x56, 0x78})
+		emit(unit, 1, 1, flipBit(v, 16+2), v2, op, "f8-bc")
+	}
+	o.RunMany("rtuflip", ins)
 }
